@@ -366,6 +366,10 @@ class Fn:
                     atoms.update(self.promoted_atoms(k["promoted"]))
                 elif "item" in k:
                     atoms.add(("const", k["item"]))
+                elif "static" in k:
+                    atoms.add(("const", k["static"]))
+                    if "sv" in k:
+                        atoms.add(("lit", int(k["sv"])))
                 if "fn" in k:
                     atoms.add(("fn", k["fn"]))
                 elif "v" in k:
